@@ -9,7 +9,7 @@ CALLS = {'int': 'int_', 'bool': 'bool_', 'float': 'float_', 'bytes': 'bytes_', '
          'ord': 'ord_', 'chr': 'chr_', 'str': 'str_', 'repr': 'repr_', 'hex': 'hex_',
          'isinstance': 'isinstance_', 'type': 'type_', 'min': 'min_', 'max': 'max_', 'sum': 'sum_'}
 METHODS = {'join': 'join', 'get': 'get'}
-SHIM_MODULES = {'struct': 'struct_shim', 'socket': 'socket_shim', 'array': 'array_shim'}
+SHIM_MODULES = {'struct': 'struct_shim', 'socket': 'socket_shim', 'array': 'array_shim', 'math': 'math_shim'}
 
 loaded_sources = {}     # path -> sha256 of the source that was compiled
 
